@@ -235,10 +235,11 @@ Section model.
     | None => (s, Err ENotFound)
     end.
 
-  (** add_tcp_frontend / add_udp_frontend: [entry(cluster).or_default()] first *)
+  (** add_tcp_frontend / add_udp_frontend: [entry(cluster).or_default()] first;
+      one frontend per (cluster, address) *)
   Definition add_tfront (s : state) (udp : bool) (c : N) (t : tfront) : state * res :=
     let bucket := default [] (get_t udp s !! c) in
-    if bool_decide (t ∈ bucket)
+    if bool_decide (t_addr t ∈ (t_addr <$> bucket))
     then (set_t udp s (<[c := bucket]> (get_t udp s)), Err EExists)
     else (set_t udp s (<[c := bucket ++ [t]]> (get_t udp s)), Ok).
 
